@@ -105,6 +105,14 @@ let dispatch (fn : Stdlib.String.t) (args : v list) : v =
       L [ of_opt of_nat st.current; of_list of_nat st.created; of_list of_nat st.shut; of_list of_nat st.killed;
           of_list of_nat st.broken; of_list of_nat st.replaced; of_list (of_pair of_nat of_nat) st.submits;
           of_nat st.quits; of_bool st.terminating; of_list (of_pair of_nat of_rstate) st.reqs ]
+  | "get_visible_text", [nodes] ->
+      of_str (get_visible_text (to_list (to_pair to_str to_str) nodes))
+  | "source_diff", [ops] ->
+      (* the library's raw operations are supplied; the model maps codes and counts *)
+      let raw = to_list (to_pair to_n to_str) ops in
+      let (n, d) = html_source_diff (fun _ _ -> raw) [] [] in
+      let of_z (z : z) : v = (match z with Z0 -> I 0 | Zpos p -> I (int_of_pos p) | Zneg p -> I (- (int_of_pos p))) in
+      L [ of_n n; of_list (of_pair of_z of_str) d; of_str (old_side d); of_str (new_side d) ]
   | "cors_allow_origin", [conf; rh] ->
       of_opt of_str (cors_allow_origin (to_opt to_str conf) (to_dict rh))
   | "upstream_headers", [q; rh] -> of_dict (upstream_headers (to_dict q) (to_dict rh))
